@@ -178,6 +178,131 @@ class Fragment:
         c = match_close(self.orig, toks, i)
         return self.replace_span(m.start(), toks[c][2], new, rule, why)
 
+    def _receiver_start(self, toks, dot_ix):
+        """toks[dot_ix] is the `.` of a method call; return the offset where its receiver (a postfix chain:
+        idents, literals, `::`, `.`, `?`, and bracket groups) starts."""
+        j = dot_ix - 1
+        start = None
+        expect_operand = True
+        while j >= 0:
+            k, s_, e_ = toks[j]
+            ch = self.orig[s_:e_]
+            if k == "punct" and ch in ")]":
+                # walk back to the matching opener
+                depth = 0
+                while j >= 0:
+                    kk, ss, ee = toks[j]
+                    c2 = self.orig[ss:ee]
+                    if kk == "punct" and c2 in ")]}":
+                        depth += 1
+                    elif kk == "punct" and c2 in "([{":
+                        depth -= 1
+                        if depth == 0:
+                            break
+                    j -= 1
+                start = toks[j][1]
+                j -= 1
+                expect_operand = False  # a group may be call args / index of a preceding operand
+                # is there an operand (ident) directly before the group?  e.g. f(x) or a[i]
+                if j >= 0 and toks[j][0] == "ident" and self.orig[toks[j][1]:toks[j][2]] not in ("return", "in", "if", "match", "else", "let", "mut"):
+                    continue
+                if j >= 0 and toks[j][0] == "punct" and self.orig[toks[j][1]:toks[j][2]] in ")]?":
+                    continue
+                break
+            if k in ("ident", "num", "str", "char"):
+                if k == "ident" and ch in ("return", "in", "if", "match", "else", "let", "mut", "as"):
+                    break
+                start = s_
+                j -= 1
+                # continue through `.` / `::` separators
+                if j >= 0 and toks[j][0] == "punct" and self.orig[toks[j][1]:toks[j][2]] == ".":
+                    j -= 1
+                    continue
+                if j >= 1 and self.orig[toks[j - 1][1]:toks[j][2]] == "::":
+                    j -= 2
+                    continue
+                break
+            if k == "punct" and ch == "?":
+                j -= 1
+                continue
+            break
+        if start is None:
+            raise AnchorLost("%s: cannot delimit the receiver of a method call" % self.name)
+        return start
+
+    def method_to_shim(self, method, shim, rule="R2", why="", arg_ok=None, borrow=""):
+        """R2 (general form): every `RECV.method(ARGS)` => `shim(RECV, ARGS)`, done with three small edits so that rewrites
+        inside RECV / ARGS still apply. `arg_ok(args_text)` can restrict which calls are rewritten. Returns the number rewritten."""
+        toks = self._toks()
+        n = 0
+        for i, (k, s_, e_) in enumerate(toks):
+            if k != "ident" or self.orig[s_:e_] != method or i == 0 or i + 1 >= len(toks):
+                continue
+            if self.orig[toks[i - 1][1]:toks[i - 1][2]] != "." or self.orig[toks[i + 1][1]:toks[i + 1][2]] != "(":
+                continue
+            c = match_close(self.orig, toks, i + 1)
+            args = self.orig[toks[i + 1][2]:toks[c][1]]
+            if arg_ok and not arg_ok(args.strip()):
+                continue
+            rs = self._receiver_start(toks, i - 1)
+            sh = shim(args.strip()) if callable(shim) else shim
+            self.insert_at(rs, "%s(%s" % (sh, borrow))
+            self.replace_span(toks[i - 1][1], toks[i + 1][2], ", " if args.strip() else "", rule,
+                              why or "method call behind a shim (receiver and arguments untouched)")
+            n += 1
+        return n
+
+    def index_range_to_shim(self, shims, rule="R2", why=""):
+        """R2: every `X[A..B]` / `X[A..=B]` / `X[A..]` / `X[..B]` (optionally `&`-prefixed) => `shim(X, A, B)`; A and B untouched.
+        `shims` = dict with keys 'excl', 'incl', 'from', 'to'. Returns the number rewritten."""
+        toks = self._toks()
+        n = 0
+        for i, (k, s_, e_) in enumerate(toks):
+            if k != "punct" or self.orig[s_:e_] != "[" or i == 0:
+                continue
+            pk, ps, pe = toks[i - 1]
+            if not (pk == "ident" or (pk == "punct" and self.orig[ps:pe] in ")]")):
+                continue
+            if pk == "ident" and self.orig[ps:pe] in ("return", "in", "if", "match", "else", "let", "mut", "as"):
+                continue
+            c = match_close(self.orig, toks, i)
+            # depth-0 `..`
+            j = i + 1
+            dd = None
+            while j < c:
+                kk, ss, ee = toks[j]
+                ch = self.orig[ss:ee]
+                if kk == "punct" and ch in "([{":
+                    j = match_close(self.orig, toks, j) + 1
+                    continue
+                if self.orig[ss:ss + 2] == ".." and kk == "punct":
+                    dd = ss
+                    break
+                j += 1
+            if dd is None:
+                continue
+            incl = self.orig[dd + 2:dd + 3] == "="
+            dend = dd + (3 if incl else 2)
+            a_txt = self.orig[toks[i][2]:dd].strip()
+            b_txt = self.orig[dend:toks[c][1]].strip()
+            kind = "incl" if incl else ("excl" if a_txt and b_txt else ("from" if a_txt else "to"))
+            if kind not in shims or (not a_txt and not b_txt):
+                raise AnchorLost("%s: unsupported range index %r" % (self.name, self.orig[toks[i][1]:toks[c][2]]))
+            rs = self._receiver_start(toks, i) if pk != "ident" else None
+            if rs is None:
+                # receiver = postfix chain ending at the ident before `[`
+                rs = self._receiver_start(toks, i)
+            amp = rs > 0 and self.orig[:rs].rstrip().endswith("&")
+            if amp:
+                a0 = self.orig[:rs].rstrip()
+                self.replace_span(len(a0) - 1, len(a0), "", rule, "the shim returns the reference")
+            self.insert_at(rs, "%s(" % shims[kind])
+            self.replace_span(toks[i][1], toks[i][2], ", ", rule, why or "str range indexing behind a shim whose precondition is std's panic condition")
+            self.replace_span(dd, dend, ", " if (a_txt and b_txt) else "", rule)
+            self.replace_span(toks[c][1], toks[c][2], ")", rule)
+            n += 1
+        return n
+
     def replace(self, anchor, new, rule, occ=1, why=""):
         m = self._find(anchor, occ)
         return self.replace_span(m.start(), m.end(), new, rule, why)
@@ -358,7 +483,24 @@ class Fragment:
             raise AnchorLost("%s: `in` of for-loop #%d not found" % (self.name, k))
         return self.insert_at(m.end(), "%s: " % name)
 
-    def for_to_loop(self, k, spec="", before_next="", on_none="", after_next="", it_name=None, iter_expr=None, after_decl=""):
+    def while_let_to_loop(self, k, spec="", before_next="", on_none="", after_next="", scrutinee_map=None):
+        """R1: `while let PAT = EXPR {` => `loop SPEC { before; let PAT = EXPR' else { on_none break; }; after`
+        (EXPR' = scrutinee_map(EXPR) when given, e.g. a method call put behind a shim)."""
+        ls = self.loops()
+        if len(ls) < k or ls[k - 1][0] != "while":
+            raise AnchorLost("%s: while-loop #%d not found" % (self.name, k))
+        kw, s, bo, bc = ls[k - 1]
+        hdr = self.orig[s:bo]
+        m = re.match(r"while\s+let\s+(.*?)\s*=\s*(.*?)\s*$", hdr, re.S)
+        if not m:
+            raise AnchorLost("%s: cannot parse while-let header %r" % (self.name, hdr))
+        pat, expr = m.group(1), m.group(2)
+        if scrutinee_map:
+            expr = scrutinee_map(expr)
+        new = "loop\n%s\n{\n%s let %s = %s else { %s break; };\n%s" % (spec.rstrip(), before_next, pat, expr, on_none, after_next)
+        return self.replace_span(s, bo + 1, new, "R1", "while-let -> loop + let-else (same control flow; Verus has no while-let)")
+
+    def for_to_loop(self, k, spec="", before_next="", on_none="", after_next="", it_name=None, iter_expr=None, after_decl="", next_map=None):
         """R1: `for PAT in EXPR {` => `loop SPEC { before; let Some(PAT) = EXPR.next() else { on_none break; }; after`.
         If it_name is given: `let mut it_name = IntoIterator::into_iter(EXPR);` is emitted before the loop."""
         ls = self.loops()
@@ -375,8 +517,9 @@ class Fragment:
         if it_name:
             pre = "let mut %s = %s;\n%s" % (it_name, iter_expr.replace("{expr}", expr) if iter_expr else "IntoIterator::into_iter(%s)" % expr, after_decl)
             nxt = it_name
-        new = "%sloop\n%s\n{\n%s let Some(%s) = %s.next() else { %s break; };\n%s" % (
-            pre, spec.rstrip(), before_next, pat, nxt, on_none, after_next)
+        nxt_call = next_map(nxt) if next_map else "%s.next()" % nxt
+        new = "%sloop\n%s\n{\n%s let Some(%s) = %s else { %s break; };\n%s" % (
+            pre, spec.rstrip(), before_next, pat, nxt_call, on_none, after_next)
         return self.replace_span(s, bo + 1, new, "R1", "for -> loop (Verus: for-loops do not support continue)")
 
     def closure(self, prefix, occ=1, params=None, ret=None, spec="", rule="R3", body_tpl=None, spec_map=()):
